@@ -39,7 +39,8 @@ def run_c20(ctx):
     for sig, idx, detail in viols_of(res["output"]):
         ctx.violation(sig, {"pair_index": idx, "sync_vs_async": detail}, replay_src={"pair": rows[idx - 1] if idx - 1 < len(rows) else None, "seed": ctx.seed})
     # binding demo
-    bad = [json.loads(json.dumps(r)) for r in rows[:3000]]
+    step = max(1, len(rows) // 3000)
+    bad = [json.loads(json.dumps(r)) for r in rows[::step]]
     k = 0
     for r in bad:
         if r.get("e") == "Pair" and r["sync"]["present"] and r["async"]["present"] and k == 0:
